@@ -110,6 +110,7 @@ func c09(p *core.Program, r *core.Report) {
 	})
 
 	footprintRule(p, r, "segment-coverage", [][2]string{{"", "doubleArea1"}, {"", "length1"}})
+	measureDelegationRule(p, r, "measure-delegation")
 
 	r.Assume("numerical accuracy of the shoelace/length sums and additivity as an equation are not decided")
 	r.Assume("LASTELEM/CHAIN match the repository's iterator idioms on the type-checked AST; a differently written iterator would be reported, not silently accepted")
